@@ -2298,9 +2298,10 @@ class CppEmitter(Visitor):
                 step_cast = self._range_bound(e.args[2], result_ty.elt, ctx)
                 ctr = self._fresh_temp()
                 out, append = self._open_list_build(result_ty)
+                cond = self._range3_cond(ctr, stop_cast, e.args[2], step_cast)
                 self.writer.add_line(
                     f'for ({int_ty} {ctr} = {start_cast}; '
-                    f'{ctr} < {stop_cast}; {ctr} += {step_cast}) {{'
+                    f'{cond}; {ctr} += {step_cast}) {{'
                 )
                 self.writer.indent()
                 self.writer.add_line(f'{append(ctr)};')
@@ -2311,6 +2312,14 @@ class CppEmitter(Visitor):
                 raise CppEmitError(
                     f'unsupported range op: {type(e).__name__}', at=e,
                 )
+
+    def _range3_cond(self, ctr: str, stop: str, step_e: Expr, step: str) -> str:
+        """The loop test of ``range(start, stop, step)``: a descending range
+        (negative step) runs while the counter is *above* ``stop``."""
+        known = self._concrete_int_of(step_e)
+        if known is not None:
+            return f'{ctr} < {stop}' if known > 0 else f'{ctr} > {stop}'
+        return f'({step} > 0 ? {ctr} < {stop} : {ctr} > {stop})'
 
     def _emit_size(self, e: Size, ctx) -> str:
         """``size(xs, d)`` -- follow *d* ``[0]`` indices into the shape format
@@ -3700,9 +3709,10 @@ class CppEmitter(Visitor):
                 start = self._visit_expr(iterable.args[0], ctx)
                 stop = self._visit_expr(iterable.args[1], ctx)
                 step = self._visit_expr(iterable.args[2], ctx)
+                cond = self._range3_cond(target, stop, iterable.args[2], step)
                 return (
                     f'for ({decl} = {start}; '
-                    f'{target} < {stop}; {target} += {step})'
+                    f'{cond}; {target} += {step})'
                 )
             case _:
                 iter_str = self._visit_expr(iterable, ctx)
